@@ -101,7 +101,10 @@ func dedupLoop(configArgs map[string]string, w *fsnotify.Watcher, completedChann
 		defer regenerateMutex.Unlock()
 
 		dirsToWatch := generateInWatchMode(configArgs)
-		if dirsToWatch != nil && len(dirsToWatch) > len(w.WatchList()) {
+		if dirsToWatch != nil {
+			// Adding a directory that is already watched is harmless. (Comparing the number of
+			// directories with the length of the watch list, which also holds ".", left a package
+			// with exactly one import unwatched.)
 			for _, dir := range dirsToWatch {
 				if err := w.Add(dir); err != nil {
 					completedChannel <- err
